@@ -177,7 +177,7 @@ def conds_c12(tier):
                     text(enc, pk2, mo2, e2, XH_LEN=3 if enc in ("latin-1", "utf-16") else 2)
     for (pk, mo, e) in variants:
         cs.append(_cond("c12_binary", f"c12_binary_{pk}_m{mo}_e{e}", XH_STORE="binary", XH_PK=pk, XH_MOUNT=mo, XH_EAGER=e))
-    nj, npk = 7, 6
+    nj, npk = 7, 7
     for v in range(nj):
         pk, mo, e = variants[v % 4]
         enc = ["none", "utf-16", "latin-1", "utf-8"][v % 4]  # (json.dump escapes non-ASCII: every encoding can hold every value)
